@@ -196,6 +196,12 @@ b: "b" | "b" b
 '''
 
 
+G_CYKP = 'start: (p | q)+ | a | b\na.1: "x"\nb.2: "x"\np.3: "x" "y"\nq.1: "x" "y"\n%ignore " "\n'
+G_CYKQ = 'start: (p | q)+ | a | b\na.2: "x"\nb.1: "x"\np.1: "x" "y"\nq.3: "x" "y"\n%ignore " "\n'      # same shapes, priorities swapped
+G_LP = 'start: (KW | ID | N)+\nKW.2: "ab"\nID: /[a-c]+/\nN.-1: /[a-c]/\nX.2: /d/\nY: /d|e/\n%ignore " "\n'
+G_LPQ = 'start: (KW | ID | N)+\nKW.-2: "ab"\nID: /[a-c]+/\nN.1: /[a-c]/\nX: /d/\nY.2: /d|e/\n%ignore " "\n'
+
+
 def big_grammar(n=130):
     kws = ['kw%03d' % i for i in range(n)]
     alts = ' | '.join('"%s"' % k for k in kws)
@@ -300,6 +306,15 @@ _add(Entry('eamp', G_AMB_P, {'parser': 'earley'},
 _add(Entry('ecyc', G_ECYC, {'parser': 'earley'}, _prod({'basic': {'lexer': 'basic'}, 'dyn': {'lexer': 'dynamic'}}),
            lalr=False, texts=["p q q r", "", "q s r", "p p", "r", "q q q s q s"]))
 _add(Entry('cyk', G_CYK, {'parser': 'cyk'}, {'': {}}, lalr=False, texts=["a b", "a a b b a b", "b a", "", "a a b"]))
+_add(Entry('cykp', G_CYKP, {'parser': 'cyk'}, {'': {}, 'inv': {'priority': 'invert'}}, lalr=False, texts=["x", "x y x y", "x y", "y", "x x"]))
+_add(Entry('cykq', G_CYKQ, {'parser': 'cyk'}, {'': {}, 'inv': {'priority': 'invert'}}, lalr=False, texts=["x", "x y x y", "x y", "y", "x x"]))
+_add(Entry('eampq', G_AMB_P.replace('e.2:', 'e.1:').replace('atom.1:', 'atom.3:'), {'parser': 'earley'},
+           _prod({'basic': {'lexer': 'basic'}, 'dyn': {'lexer': 'dynamic'}}, {'res': {}, 'inv': {'priority': 'invert'}}),
+           lalr=False, texts=["a+b*c", "aa+b", "a b+c c*a", "a+", "aaa"]))
+_add(Entry('lp', G_LP, {'parser': 'lalr'}, _prod(LX, {'': {}, 'inv': {'priority': 'invert'}, 'none': {'priority': None}}),
+           samples={'ID': ['abc', 'b'], 'N': ['a'], 'X': ['d'], 'Y': ['e']}, texts=["ab abc a d e", "ab", "a b c", "d d e", "f"]))
+_add(Entry('lpq', G_LPQ, {'parser': 'lalr'}, _prod(LX, {'': {}, 'inv': {'priority': 'invert'}}),
+           samples={'ID': ['abc', 'b'], 'N': ['a'], 'X': ['d'], 'Y': ['e']}, texts=["ab abc a d e", "ab", "a b c", "d d e", "f"]))
 
 
 class _Entries(dict):
